@@ -1616,3 +1616,36 @@ func (c *Ctx) filterAfterLookupsRule(rule string) {
 	r.Check(rule, FnKey(fn)+":filter-after-lookups", c.Pos(strips[0].Pos()), ok, "a lookup by position runs after the directive filter has moved comment lines: "+why)
 	r.Floor(rule, "position lookups in GenerateBaseCode", n, 2)
 }
+
+// methodDocFilterRule (C11): the doc comment handed on for the generated function has been through the directive filter.
+func (c *Ctx) methodDocFilterRule(rule string) {
+	r := c.R
+	r.Rule(rule, "parseMethod: the comment group stored as MethodEntry.DocComment (its remaining lines become the doc comment of the generated function) is, on every way to that literal, the operand of util.ExtractMatchComments with the directive pattern (reGoBuildGen) as well as with the notation pattern: a `//go:generate …` line in a method's doc comment would otherwise be copied into the output and run again from there – the file-wide filter of GenerateBaseCode runs after the functions have been built from the texts")
+	me := c.MustType(rule, "/pkg/builder/model", "MethodEntry")
+	if me == nil {
+		return
+	}
+	n := 0
+	for _, a := range c.Lits(me) {
+		fn := a.Parent()
+		if p := pkgOf(fn); p == nil || p.Path() != mod+"/pkg/parser" {
+			continue
+		}
+		doc := LitFields(a)["DocComment"]
+		if doc == nil {
+			continue
+		}
+		n++
+		dt := c.O.Of(doc).String()
+		for _, pat := range []string{"parser.reGoBuildGen", "parser.reNotation"} {
+			ok := false
+			for _, s := range c.CallsIn(fn, pUtil+"ExtractMatchComments", false) {
+				if c.O.Of(s.Args()[0]).String() == dt && c.O.Of(s.Args()[1]).Is("global", pat) && s.Instr.Block().Dominates(a.Block()) {
+					ok = true
+				}
+			}
+			r.Check(rule, sprintf("%s:MethodEntry%d:filtered:%s", FnKey(fn), n, pat), c.InstrPos(a), ok, "the doc comment handed on for the generated function has not been through ExtractMatchComments(_, "+pat+") on every way to the entry")
+		}
+	}
+	r.Floor(rule, "MethodEntry literals with a DocComment in the parser", n, 1)
+}
